@@ -8,6 +8,7 @@ import (
 	"sort"
 	"strings"
 	"sync"
+	"sync/atomic"
 	"time"
 
 	"github.com/anishathalye/porcupine"
@@ -112,7 +113,7 @@ func step(st state, i in, o out) (bool, state) {
 			return o.Err, st
 		}
 		return !o.Err && o.U == st.U && o.M == st.M, st
-	case "sign":
+	case "sign", "signer-sign":
 		if st.Locked {
 			return o.Err, st
 		}
@@ -261,7 +262,7 @@ func main() {
 			if i < 2 {
 				r.Sample(res.rec)
 			}
-			if r.NumViolations() > 12 {
+			if r.NumViolations() > 12 || r.Counter("rounds with an operation that did not complete") >= 3 {
 				break
 			}
 		}
@@ -367,8 +368,9 @@ func runRound(r *ev.Run, c *ev.Case, round int, mode string, g int) *roundResult
 	}
 	var hangMu sync.Mutex
 	hung := ""
+	var group atomic.Bool
 	mkGuard := func(inner shimagent.ShimAgent) *sh.Guarded {
-		return &sh.Guarded{Inner: inner, OnHang: func(op string) {
+		return &sh.Guarded{Inner: inner, Group: &group, OnHang: func(op string) {
 			hangMu.Lock()
 			hung = op
 			hangMu.Unlock()
@@ -398,6 +400,10 @@ func runRound(r *ev.Run, c *ev.Case, round int, mode string, g int) *roundResult
 		for _, h := range handles {
 			h.close()
 		}
+		// a wedged shim cannot be closed either (Close takes the same lock): leave it behind
+		if group.Load() {
+			return
+		}
 		if shared != nil {
 			shared.Close()
 		}
@@ -405,11 +411,25 @@ func runRound(r *ev.Run, c *ev.Case, round int, mode string, g int) *roundResult
 			srv.Close()
 		}
 	}()
+	// a hardware-certificate signer handed out by Signers() before the barrier: using it is a sign through the shim
+	var hardSigner ssh.Signer
+	if shared != nil && init.U&1 != 0 && rng.Intn(2) == 0 {
+		if shared.AddHardCert(mat.hard[0], "hc") == nil {
+			init.M |= 1
+			if sg, serr := shared.Signers(); serr == nil {
+				for _, x := range sg {
+					if string(x.PublicKey().Marshal()) == string(mat.hard[0].Marshal()) {
+						hardSigner = x
+					}
+				}
+			}
+		}
+	}
 	// pre-generate the operations
 	kinds := []struct {
 		op string
 		w  int
-	}{{"list", 10}, {"signers", 8}, {"sign", 8}, {"sign-hard", 6}, {"add", 10}, {"remove", 5}, {"remove-hard", 3}, {"remove-all", 1}, {"add-hard-cert", 10}, {"lock", 1}, {"unlock", 2}, {"extension", 5}, {"forward", 5}}
+	}{{"list", 10}, {"signers", 8}, {"sign", 8}, {"sign-hard", 6}, {"add", 10}, {"remove", 5}, {"remove-hard", 3}, {"remove-all", 1}, {"add-hard-cert", 10}, {"lock", 1}, {"unlock", 2}, {"extension", 5}, {"forward", 5}, {"signer-sign", 6}}
 	tw := 0
 	for _, k := range kinds {
 		tw += k.w
@@ -426,6 +446,9 @@ func runRound(r *ev.Run, c *ev.Case, round int, mode string, g int) *roundResult
 					break
 				}
 				x -= k.w
+			}
+			if op == "signer-sign" && hardSigner == nil {
+				op = "forward"
 			}
 			i := in{Op: op, Served: mode == "served"}
 			switch op {
@@ -516,6 +539,33 @@ func runRound(r *ev.Run, c *ev.Case, round int, mode string, g int) *roundResult
 					rec.note = "signature does not verify over the caller's own data (reply of another request?)"
 				}
 			}
+		case "signer-sign":
+			// the signer handed out earlier signs with the plain key K0 through the shim
+			tagMu.Lock()
+			tagN++
+			data := []byte(fmt.Sprintf("round%d-client%d-signer%d", round, client, tagN))
+			tagMu.Unlock()
+			type res struct {
+				sig *ssh.Signature
+				err error
+			}
+			ch := make(chan res, 1)
+			go func() { s, e := hardSigner.Sign(nil, data); ch <- res{s, e} }()
+			select {
+			case rr := <-ch:
+				o.Err = rr.err != nil
+				if rr.err == nil && mat.hard[0].Verify(data, rr.sig) != nil {
+					o.Forbidden = true
+					rec.note = "signature of the handed-out hardware signer does not verify over the caller's own data"
+				}
+			case <-time.After(sh.OpTimeout):
+				o = pendingOut()
+				group.Store(true)
+				hangMu.Lock()
+				hung = "signer-sign"
+				hangMu.Unlock()
+				ag.Close()
+			}
 		case "lock":
 			o.Err = a.Lock([]byte{'p', i.Pass}) != nil
 		case "unlock":
@@ -584,6 +634,7 @@ func runRound(r *ev.Run, c *ev.Case, round int, mode string, g int) *roundResult
 	h := hung
 	hangMu.Unlock()
 	if h != "" {
+		r.Count("rounds with an operation that did not complete", 1)
 		r.Violation(c, "operation-does-not-complete:"+h, fmt.Sprintf("an operation (%s) did not return within %s\n%s", h, sh.OpTimeout, strings.Join(res.rec.History, "\n")), res.rec)
 		return res
 	}
